@@ -304,11 +304,14 @@ def run(ctx):
     if ctx.replay:
         cases = [parse_line(l) for l in ctx.replay]
     else:
-        nbig, nsmall = ctx.scale(140, 1500), ctx.scale(70, 700)
+        nbig, nsmall = ctx.scale(260, 2800), ctx.scale(80, 800)
         cases = [parse_line(make_case(ctx, "e%d" % i, small=False)["line"]) for i in range(nbig)] + \
                 [parse_line(make_case(ctx, "e%d" % (nbig + i), small=True)["line"]) for i in range(nsmall)]
+    import time as _t; t0 = _t.time()
     lines = [c["line"] for c in cases]
+    ctx.notes.append("t_generate %.1fs (since check start %.1fs)" % (_t.time() - t0, _t.time() - ctx.t0))
     impl, crashed = fw.run_impl_lines(ctx, "drv_energy", lines, nprocs=1, name="c10", timeout=1500)
+    ctx.notes.append("t_impl_done %.1fs" % (_t.time() - ctx.t0))
     mjobs = []
     for c in cases:
         ctx.count("class_" + c["cls"]); ctx.count("relax_" + c["relax"])
@@ -325,11 +328,12 @@ def run(ctx):
             if not sing:
                 check_hypotheses(ctx, c, d)
                 mjobs.append((model_cost(c, d), c, d))
+    ctx.notes.append("t_energy_done %.1fs" % (_t.time() - ctx.t0))
     if mjobs:
         mjobs.sort(key=lambda j: j[0])
         mlines = []
         for _, c, d in mjobs: mlines += model_lines(c, d)
-        rcm, model, errm, killed = run_model_budget(ctx, mlines, ctx.scale(40, 600))
+        rcm, model, errm, killed = run_model_budget(ctx, mlines, ctx.scale(30, 420))
         if rcm != 0: ctx.signal("K", "modeldriver", "model driver exited with %s: %s" % (rcm, errm[-400:]))
         for _, c, d in mjobs:
             sig = "%s:%s:model" % (c["cls"], c["relax"])
@@ -357,3 +361,4 @@ def run(ctx):
                                   xm and [float(nums.parse_num(s)) for s in xm][:6], rm.get("ERR", rm.get("INEXACT", ""))), case=c["line"])
                     break
                 ctx.count("model_cycles_compared")
+    ctx.notes.append("t_model_done %.1fs" % (_t.time() - ctx.t0))
